@@ -23,6 +23,9 @@ def _kind(stmts, f):
     """'multi' / 'single' / None for a branch, judged by the callee names and returns."""
     text = ' '.join(norm(s) for s in stmts)
     calls = [(dotted(c.func) or '').split('.')[-1] for s in stmts for c in ast.walk(s) if isinstance(c, ast.Call)]
+    # a branch may only pick the method (submit = self._submit_ranged... ) and call it after the if
+    calls += [a.attr for s in stmts if isinstance(s, ast.Assign) and isinstance(s.value, ast.Attribute) and isinstance(s.value.value, ast.Name)
+              and s.value.value.id == 'self' for a in [s.value] if f.cls is not None and f.cls.lookup(a.attr) is not None]
     if any('multipart' in c or 'ranged' in c for c in calls):
         return 'multi'
     for s in stmts:
@@ -361,6 +364,15 @@ def limits_are_s3s_and_applied(ctx):
         any(isinstance(x, ast.Assign) and norm(x.targets[0]) == nv and _num_parts_expr_ok(x.value, m.params[2], cv) for x in loops[0].body) and \
         any(_num_parts_expr_ok(v, m.params[2], cv) for st, v in q.local_defs(m, nv) if isinstance(v, ast.AST) and q.in_loop(st) is None) and \
         any(norm(v) == m.params[1] for st, v in q.local_defs(m, cv) if isinstance(v, ast.AST))
+    if not ok and len(loops) == 1 and cv is not None:
+        # the part count is recomputed in the loop test itself: while <num_parts(file_size, chunksize)> > self.max_parts: chunksize *= 2
+        t = loops[0].test
+        direct = isinstance(t, ast.Compare) and len(t.ops) == 1 and (
+            (isinstance(t.ops[0], ast.Lt) and norm(t.left) == 'self.max_parts' and _num_parts_expr_ok(t.comparators[0], m.params[2], cv)) or
+            (isinstance(t.ops[0], ast.Gt) and norm(t.comparators[0]) == 'self.max_parts' and _num_parts_expr_ok(t.left, m.params[2], cv)))
+        ok = direct and [x for x in loops[0].body if not isinstance(x, ast.Expr)] == [x for x in loops[0].body if isinstance(x, ast.AugAssign) and isinstance(x.op, ast.Mult)
+                                                                                   and norm(x.value) == '2' and norm(x.target) == cv] \
+            and len(loops[0].body) >= 1 and any(norm(v) == m.params[1] for st, v in q.local_defs(m, cv) if isinstance(v, ast.AST))
     ctx.ob(m, 'while num_parts > max_parts: chunksize *= 2; recompute num_parts; return chunksize', ok, f'loop {norm(loops[0].test) if loops else None}, returns {rets}')
     # use in the two submitters
     for qn, consumers in (('upload.UploadSubmissionTask._submit_multipart_request', ['yield_upload_part_bodies']),
